@@ -603,9 +603,9 @@ fn judge_single(case: &Case, obs: &Obs, l: &mut Local) {
 
 /// The scripts as they stand at virtual time `t` (what has been consumed is cut off) and, per
 /// server, whether the pool then holds a usable TCP connection.
-fn state_at(obs: &Obs, t: u64) -> (Vec<Srv>, Vec<bool>) {
+fn state_at(obs: &Obs, t: u64) -> (Vec<Srv>, Vec<u8>) {
     let mut servers = obs.servers.clone();
-    let mut alive = vec![false; servers.len()];
+    let mut alive = vec![0u8; servers.len()];
     for (s, srv) in servers.iter_mut().enumerate() {
         let used = |tcp: bool| obs.log.iter().filter(|e| !e.connect && e.tag == TAG_MAIN && e.srv == s && e.tcp == tcp && e.step != "closed" && e.start < t).count();
         let cut = |sc: &mut Script<Step>, k: usize| {
@@ -623,12 +623,14 @@ fn state_at(obs: &Obs, t: u64) -> (Vec<Srv>, Vec<bool>) {
         // the last thing that happened on TCP to this server before t
         if let Some(e) = obs.log.iter().filter(|e| e.srv == s && e.tcp && e.start < t).max_by_key(|e| e.serial) {
             alive[s] = if e.connect {
-                e.step == "ok"
+                (e.step == "ok") as u8
             } else {
                 match e.end {
                     // abandoned in flight (another server won): the connection is kept
-                    None => true,
-                    Some(_) => ["answer:", "nxdomain", "nodata", "truncated", "servfail", "refused"].iter().any(|p| e.step.starts_with(p)),
+                    None => 1,
+                    // answered, then closed by the server: the pool still holds it
+                    Some(_) if e.step.starts_with("answerclose") => 2,
+                    Some(_) => ["answer:", "nxdomain", "nodata", "truncated", "servfail", "refused"].iter().any(|p| e.step.starts_with(p)) as u8,
                 }
             };
         }
@@ -965,8 +967,8 @@ fn tcp_modes(n: usize, digit: u64) -> Vec<u64> {
     } else {
         match digit {
             0 => vec![0; n],
-            1 => vec![1; n],
-            _ => (0..n).map(|i| if i == 0 { 2 } else { 0 }).collect(),
+            1 => (0..n).map(|i| if i == 0 { 2 } else { 0 }).collect(),
+            _ => vec![1; n],
         }
     }
 }
@@ -1080,6 +1082,7 @@ fn refine_alphabets(thorough: bool) -> Alphabets {
     }
     let tcp = vec![
         Step::AnswerClose(fast(0, true)),
+        Step::CloseNoAnswer(28),
         Step::Answer(SLOW),
         Step::NxDomain(28),
         Step::Silent,
@@ -1110,9 +1113,12 @@ fn refine_configs(thorough: bool) -> Vec<Case> {
                 // first / last for n = 4); trust: all / none; busy runs: a server that is busy k
                 // times before following its script
                 let mut masks: Vec<u32> = if n <= 3 { (0..(1u32 << n)).collect() } else { vec![0, (1 << n) - 1, 1, 1 << (n - 1)] };
-                if strategy != "user" && n >= 3 {
-                    // the order-insensitive strategies only with none / all / first / last UDP-only
+                if (strategy != "user" || !thorough) && n >= 3 {
+                    // the order-insensitive strategies (quick: all) only with none / all / first / last UDP-only
                     masks.retain(|m| [0, (1 << n) - 1, 1, 1 << (n - 1)].contains(m));
+                }
+                if !thorough && strategy != "user" && n >= 3 {
+                    masks.retain(|m| [0, (1 << n) - 1].contains(m));
                 }
                 for udp_only in masks {
                     for trust in [true, false] {
@@ -1134,7 +1140,7 @@ fn refine_configs(thorough: bool) -> Vec<Case> {
                             out.push(c.clone());
                             // the same with a first server that truncates every UDP reply: every
                             // lookup then goes through its TCP connection, which is reused
-                            if busy_run == 0 && trust && udp_only & 1 == 0 && strategy == "user" {
+                            if busy_run == 0 && trust && udp_only & 1 == 0 && strategy == "user" && (thorough || n <= 2) {
                                 c.servers[0].udp = Script::constant(Step::Truncated(fast(0, false)));
                                 out.push(c);
                             }
@@ -1324,7 +1330,7 @@ fn main() {
          num_concurrent_reqs {1,2,3} x per-server protocol set {UDP+TCP reachable, UDP+TCP with TCP refused, UDP only} (every assignment for n<=3; all-reachable / all-refused / first-server-UDP-only for n=4) x trust_negative_responses of every NXDOMAIN server; \
          (ii) every schedule with <= d deviations (d=2; thorough d=3 for n<=2 and for n=3 in user order with one request at a time) from 'every exchange is answered fast' over the alphabet \
          {answer 0.6T, NXDOMAIN, truncated, silent(>T), io-error fast/0.6T, reset, busy, SERVFAIL, REFUSED, NODATA, case-mismatch; TCP connect refused/timeout} \
-         under static configurations n x conc x strategy x every subset of UDP-only servers (n<=3) x trust x busy runs {0,2,5} x {first server answers / truncates every UDP reply}, each a SESSION of three sequential lookups on the same pool, every one judged in full against the scripts and TCP connections as they stand when it starts (TCP alphabet incl. 'answer, then the server closes the idle connection'); \
+         under static configurations n x conc x strategy x every subset of UDP-only servers (n<=3) x trust x busy runs {0,2,5} x {first server answers / truncates every UDP reply}, each a SESSION of three sequential lookups on the same pool, every one judged in full against the scripts and TCP connections as they stand when it starts (TCP connections are the real DnsExchange over a scripted transport; TCP alphabet incl. 'answer, then the server closes the idle connection' and 'the server closes the connection instead of answering'); \
          (iii) k in {2,3} identical callers + one different query, arrival and at most one (thorough: two) cancellation(s) (creator and/or waiters) at the instants \
          just before/after every upstream event of the scenario, plus arrival just after completion and a follow-up after quiescence; the different query arrives at t0 or mid-flight. \
          (v) RetryDnsHandle::new(pool, attempts 0..2 (3)) over 1-2 servers each failing k=1..3 (4) times with one of {io-error, silent, busy, SERVFAIL, untrusted NXDOMAIN, reset} before answering (or answering / trusted NXDOMAIN at once): every pool lookup judged as in (i), at most attempts+1 of them, the last one's result returned, responses never retried, io-errors/timeouts retried while attempts remain, total <= (attempts+1) x timeout. \
@@ -1347,7 +1353,8 @@ fn main() {
         let mut rad: Vec<u64> = vec![nbeh; n];
         rad.push(n as u64 + 3); // strategies
         rad.push(3); // conc
-        rad.push(tcp_radix(n)); // per-server protocol modes
+        // per-server protocol modes (quick, n = 4: all reachable / first server UDP-only)
+        rad.push(if n == 4 && !thorough { 2 } else { tcp_radix(n) });
         let od = Odometer::new(&rad);
         let space = od.space();
         total_space += space;
@@ -1375,7 +1382,6 @@ fn main() {
     ctx.set("coarse_runs", json!(ctx.evals()));
 
     // ---------------- (ii) deviation-bounded refinement
-    let bound = if thorough { 3 } else { 2 };
     let alph = refine_alphabets(thorough);
     let configs = refine_configs(thorough);
     let mut sched_runs = 0u64;
